@@ -143,15 +143,16 @@ class DirectivesTransformer(converter.Base):
       call_node = node.value
       static_val = anno.getanno(call_node.func, STATIC_VALUE, default=None)
       if static_val is not None:
-        # Note: directive calls are not output in the generated code, hence
-        # the removal from the code by returning None.
+        # Note: directive calls are not output in the generated code. They are
+        # replaced by `pass` rather than removed, so that a block made only of
+        # directive calls does not become empty.
 
         if static_val is directives.set_element_type:
           self._process_symbol_directive(call_node, static_val)
-          return None
+          return ast.Pass()
         elif static_val is directives.set_loop_options:
           self._process_statement_directive(call_node, static_val)
-          return None
+          return ast.Pass()
     return node
 
   # TODO(mdan): This will be insufficient for other control flow.
